@@ -245,6 +245,8 @@ class Run:
         wall = round(time.time() - self.t0, 2)
         nun = sum(1 for o in self.obl if o['result'] == 'unsat'); nsat = sum(1 for o in self.obl if o['result'] == 'sat')
         nunk = sum(1 for o in self.obl if o['result'] == 'unknown')
+        if nsat and not self.violations and not self.inconclusive and not self.known_printed:
+            self.inconclusive.append(f'{nsat} obligation(s) have counterexamples in the encoding but none was replayed/reported')
         cov = {
             'explanation': explanation,
             'evaluations': len(self.obl) + len(self.reach_list),
